@@ -70,8 +70,83 @@ def check_wide(acc):
     acc.sample({'wide': {'arity': 40, 'type': 'XOR', 'label_length': 1}})
 
 
+BAD_TEXTS = [
+    ('dff', 'INPUT(a)\nOUTPUT(q)\nOUTPUT(n1)\nn1 = NOT(a)\nq = DFF(n1)\n'),
+    ('undefined-output', 'INPUT(a)\nOUTPUT(y)\nOUTPUT(q)\ny = NOT(a)\n'),
+    ('truncated-line', 'INPUT(a)\nINPUT(b)\nOUTPUT(y)\ny = AND(a,\n'),
+    ('unknown-operator', 'INPUT(a)\nOUTPUT(y)\nOUTPUT(n1)\ny = FOO(a)\nn1 = NOT(a)\n'),
+    ('undefined-operand', 'INPUT(a)\nOUTPUT(n1)\nOUTPUT(y)\nn1 = NOT(a)\ny = AND(a, zz)\n'),
+    ('defined-twice', 'INPUT(a)\nOUTPUT(y)\ny = NOT(a)\ny = BUFF(a)\n'),
+    ('input-twice', 'INPUT(a)\nINPUT(a)\nOUTPUT(a)\n'),
+    ('good-other', 'INPUT(b)\nINPUT(a)\nOUTPUT(n1)\nOUTPUT(q)\nn1 = OR(a, b)\nq = NOT(n1)\n'),
+]
+GOOD_TEXTS = [
+    'INPUT(a)\nINPUT(b)\nOUTPUT(y)\ny = AND(a, b)\nq = NOT(a)\nn1 = OR(q, b)\n',
+    'INPUT(zz)\nOUTPUT(zz)\n',
+    'INPUT(a)\nOUTPUT(y)\ny = NOT(a)\n',
+]
+
+
+def _denoted(text):
+    import mockturtle_wrapper as mw
+
+    ins, outs, gates, order = mw.parse(text)
+    g = {i: ('INPUT', ()) for i in ins}
+    for l, (op, ops) in gates.items():
+        g[l] = ({'BUFF': 'IFF', 'VDD': 'ALWAYS_TRUE'}.get(op, op), tuple(ops))
+    return refmodel.Net(ins, outs, g)
+
+
+def check_sequences(acc):
+    """A parse (rejected or accepted) followed by the parse of a well-formed text in the same process: the second
+    result must be what that text denotes - nothing may survive from the first."""
+    from cirbo.core.circuit import Circuit
+
+    for bname, bad in BAD_TEXTS:
+        for good in GOOD_TEXTS:
+            for via in ('string', 'file'):
+                acc.states += 1
+                case = {'first_text': bname, 'then': good, 'via': via}
+                try:
+                    if via == 'string':
+                        Circuit.from_bench_string(bad)
+                    else:
+                        path = os.path.join(_tmpdir(), f'bad{os.getpid()}.bench')
+                        with open(path, 'w') as f:
+                            f.write(bad)
+                        Circuit.from_bench_file(path)
+                except Exception:  # noqa: BLE001
+                    acc.count('first_text_rejected')
+                _parse_expect(acc, 'sequence', case, good, _denoted(good))
+    acc.outcome('rt', ('sequence',))
+
+
+DEEP_BENCH_PATTERNS = ('not-and', 'xor-nor', 'iff-not', 'or3')
+
+
+def check_deep(acc, pattern, L, order):
+    """The text of a chain deeper than the recursion limit, gate lines in definition order, from the output down,
+    or interleaved."""
+    net = space.deep_chain_net(pattern, L)
+    glabs = [l for l in net.gates if l not in net.inputs]
+    if order == 'reversed':
+        glabs = glabs[::-1]
+    elif order == 'interleaved':
+        glabs = glabs[::2] + glabs[1::2][::-1]
+    lines = [f'INPUT({i})' for i in net.inputs] + [f'OUTPUT({o})' for o in net.outputs]
+    lines += [_gate_line(l, net.gates[l][0], net.gates[l][1]) for l in glabs]
+    text = '\n'.join(lines) + '\n'
+    acc.states += 1
+    _parse_expect(acc, 'deep', {'deep_chain': pattern, 'length': L, 'order': order}, text, net)
+    acc.outcome('rt', ('deep', pattern, L, order))
+
+
 def plan(tier):
-    t = [{'kind': 'wide', 'n': 0, 'k': 0, 'prefix': [], 'alpha': 'FULL'}]
+    t = [{'kind': 'wide', 'n': 0, 'k': 0, 'prefix': [], 'alpha': 'FULL'}, {'kind': 'sequences'}]
+    for pat in DEEP_BENCH_PATTERNS:
+        for L in space.DEEP_LENGTHS[tier]:
+            for order in ('forward', 'reversed', 'interleaved'):
+                t.append({'kind': 'deep', 'pattern': pat, 'L': L, 'order': order})
 
     def fam(kind, n, k, a, split, **kw):
         for tk in space.tasks(n, k, ALPHAS[a], split):
@@ -100,7 +175,7 @@ def plan(tier):
 
 def describe(tier):
     return {
-        'rule': 'wide: gates with up to 130 operands / 66-character labels (long lines) by string and file; rt: circuit of F(n,k,A) x output policy x 22 label schemes (keyword-prefixed, operator-named, '
+        'rule': 'sequences: 8 first texts (7 malformed in different ways, 1 well formed) x 3 well-formed second texts x {string, file}: the second parse must be exactly what its text denotes; deep: chain texts of 1200/3000 (7000) gates, lines in definition order / from the output down / interleaved; wide: gates with up to 130 operands / 66-character labels (long lines) by string and file; rt: circuit of F(n,k,A) x output policy x 22 label schemes (keyword-prefixed, operator-named, '
         'punctuated, digit-first labels rotated through every node position) x storage orders (creation order, '
         'reversed via rename, inputs reordered) -> parse(format(c)) == c and from_bench_file(save_to_file(c)) == c. '
         'perm: every permutation of the text lines (INPUT/gate/OUTPUT lines, use before definition, outputs first). '
@@ -356,6 +431,10 @@ def check_spell(n, gates, acc):
 def run_task(task, acc):
     if task['kind'] == 'wide':
         return check_wide(acc)
+    if task['kind'] == 'sequences':
+        return check_sequences(acc)
+    if task['kind'] == 'deep':
+        return check_deep(acc, task['pattern'], task['L'], task['order'])
     alpha = ALPHAS[task['alpha']]
     for gates in space.enum_gates(task['n'], task['k'], alpha, space.prefix_from_task(task)):
         if task['kind'] == 'rt':
@@ -373,6 +452,10 @@ def replay(case, acc):
         return run_task(case['task'], acc)
     if 'wide' in case:
         return check_wide(acc)
+    if 'first_text' in case:
+        return check_sequences(acc)
+    if 'deep_chain' in case:
+        return check_deep(acc, case['deep_chain'], case['length'], case['order'])
     if 'bench' in case:
         # the denoted netlist is re-derived by the shim's independent reader
         import mockturtle_wrapper as mw
